@@ -405,19 +405,14 @@ def rule_val(ctx):
             tk = nf.varset(taken)
             tnames = {v[1] for v in tk if v[0] == "var"}
             if prefix in (prefixes.get("I"), prefixes.get("J"), prefixes.get("K")):
-                need = {("each", ("call", "Term::variables", (C_gen(vk),))), ("place", "$z.name")}
-                # the term is the whole specialised argument: accept Term::variables(<the argument>)
+                # Z can itself be an integer variable of the same letter (val calls val with I / J as Z): it must be in the taken set.
+                # The variables of t are general-sorted program variables: an integer-sorted binder of the same name is a different
+                # variable, so their presence in the taken set is not required for correctness (it is reported, not demanded).
                 have_t = any(isinstance(x, tuple) and x[0] == "each" and x[1][0] == "call" and x[1][1] == "Term::variables" and is_whole_term(x[1][2][0]) for x in tnames)
                 have_z = ("place", "$z.name") in tnames
-                ctx.add("FRESH", "val:%s:%s:taken" % (vk, prefix), have_t and have_z, ctx.site(b),
-                        "%s is chosen fresh against every variable of t (%s) and Z (%s); taken = {%s}" % (prefix, "yes" if have_t else "NO", "yes" if have_z else "NO", ", ".join(sorted(rn(x) for x in tnames))))
-            elif prefix in (prefixes.get("Q"), prefixes.get("R")):
-                srcs = [x for x in tnames if isinstance(x, tuple) and x[0] == "each" and x[1][0] == "call" and x[1][1] == "Formula::variables"]
-                operands = {key(s[1][2][0]) for s in srcs}
-                want = {key(ftpl.NF().gen(reduce(x))) for x in ()}
-                both = len(operands) == 2 and all("'tau_star::val'" in o for o in operands) and any("$lhs" in o for o in operands) and any("$rhs" in o for o in operands)
-                ctx.add("FRESH", "val:%s:%s:taken" % (vk, prefix), both, ctx.site(b),
-                        "%s is chosen fresh against all variables of val_t1(I) and val_t2(J) (which contain I, J and the variables of t1, t2); taken = {%s}" % (prefix, ", ".join(sorted(rn(x) for x in tnames))))
+                ctx.add("FRESH", "val:%s:%s:taken" % (vk, prefix), have_z, ctx.site(b),
+                        "%s is chosen fresh against Z (%s) [and against the variables of t: %s]; taken = {%s}" % (prefix, "yes" if have_z else "NO", "yes" if have_t else "no", ", ".join(sorted(rn(x) for x in tnames))))
+            # Q, R: what they must avoid is decided by FRESH:val:*:distinct (I, J in the same scope) and FRESH:z-class:Q-R (an integer-sorted Z)
 
 
 def C_gen(vk):
@@ -771,21 +766,21 @@ def rule_zclass(ctx):
     qr = set()
     for s_ in sym.subterms(f):
         if isinstance(s_, tuple) and s_ and s_[0] == "val":
-            classes.setdefault("val", set()).add(name_class(s_[2][1]))
+            classes.setdefault("val", set()).add(name_class(s_[2][1], s_[2][2]))
         if isinstance(s_, tuple) and s_ and s_[0] == "Q":
             for v in s_[2]:
-                qr.add(name_class(v[1]))
+                qr.add(name_class(v[1], v[2]))
     for un in fx.variants("syntax_tree::asp::mini_gringo::UnaryOperator"):
         f2, _, _ = spec(fx, "val", [C("Term::UnaryOperation", op=C("UnaryOperator::" + un), arg=P("$arg")), P("$z")])
         for s_ in sym.subterms(f2):
             if isinstance(s_, tuple) and s_ and s_[0] == "val":
-                classes.setdefault("val", set()).add(name_class(s_[2][1]))
+                classes.setdefault("val", set()).add(name_class(s_[2][1], s_[2][2]))
     lit = C("Literal", sign=C("Sign::NoSign"), atom=C("Atom", predicate_symbol=P("$p"), terms=P("$ts")))
     for fn, args in (("tau_b_first_order_literal", [lit, P("$taken")]), ("tau_b_comparison", [C("Comparison", relation=C("Relation::Equal"), lhs=P("$lhs"), rhs=P("$rhs")), P("$taken")])):
         f, nf, b = spec(fx, fn, args)
         for s_ in sym.subterms(f):
             if isinstance(s_, tuple) and s_ and s_[0] == "val":
-                classes.setdefault(fn, set()).add(name_class(s_[2][1]))
+                classes.setdefault(fn, set()).add(name_class(s_[2][1], s_[2][2]))
     # valtz <- tau_star_fo_head_rule: globals
     g = body_of(fx, "choose_fresh_global_variables")
     gv = reduce(sym.Eval(fx, inline_depth=0).function(g, [P("$program")]))
@@ -794,26 +789,29 @@ def rule_zclass(ctx):
     for s_ in sym.subterms(f):
         if isinstance(s_, tuple) and s_ and s_[0] == "F" and s_[1] == "tau_star::valtz":
             vs = s_[2][1]
-            names = {x[1] for x in sym.subterms(vs) if isinstance(x, tuple) and len(x) == 2 and x[0] == "name"} | {dict(x[2]).get("name") for x in sym.subterms(vs) if isinstance(x, tuple) and x and x[0] == "ctor" and x[1] == "Variable"}
-            for n_ in names:
-                if n_ is not None:
-                    classes.setdefault("valtz", set()).add("globals:%s" % gl if "$globals" in key(n_) else "?")
+            for x in sym.subterms(vs):
+                if isinstance(x, tuple) and x and x[0] == "ctor" and x[1] == "Variable":
+                    d_ = dict(x[2])
+                    srt = d_.get("sort", ("?",))
+                    srt = srt[1].split("::")[-1][0].lower() if srt[0] == "ctor" else "?"
+                    classes.setdefault("valtz", set()).add("globals:%s$%s" % (gl, srt) if "$globals" in key(d_.get("name")) else "?")
     # who calls tau_star_fo_head_rule with which globals is part of tau_star:program / C08 (mu)
     flat = set()
     for k_, v in classes.items():
         flat |= v
     letters = {c.split(":")[-1] for c in flat}
-    ok = all(re.fullmatch(r"(fresh|globals):[A-Z]", c) for c in flat) and len(classes) == 4
+    ok = all(re.fullmatch(r"(fresh|globals):[A-Z]\$[gi]", c) for c in flat) and len(classes) == 4
     ctx.add("FRESH", "z-class:origins", ok, "src/translating/formula_representation/tau_star.rs", "every Z handed to val is a fresh name or a global variable: %s" % {k_: sorted(v) for k_, v in sorted(classes.items())})
+    # a variable is identified by name and sort: only a Z of the same sort as the quotient / remainder variable can be captured
     qr_letters = {c.split(":")[-1] for c in qr if c.startswith("fresh:")}
     inner = qr_letters - {c.split(":")[-1] for c in classes.get("val", ())}
     ctx.add("FRESH", "z-class:Q-R", ok and bool(inner) and not (inner & letters), "src/translating/formula_representation/tau_star.rs",
             "the quotient / remainder variables %s use letters that no Z can carry %s (a Z named like them would be captured by the division quantifier)" % (sorted(inner), sorted(letters)))
 
 
-def name_class(n):
+def name_class(n, sort=None):
     if isinstance(n, tuple) and n and n[0] == "fresh":
-        return "fresh:%s" % n[1]
+        return "fresh:%s%s" % (n[1], "" if sort is None else "$" + str(sort)[0].lower())
     return "other:%s" % rn(n)
 
 
